@@ -29,6 +29,22 @@ Deviations from DESIGN.md §4 C09 (reality required them):
 * babel / locale formatting is out of scope (no locales in the sandbox).
 * `#` : the expectation is the structure of `q.to_compact()` computed separately (the
   documented meaning of the modifier); that this is physically equal to q is also checked.
+  When to_compact itself raises, format(q, '#...') raising too is still reported (the
+  statement says formatting never fails) but classified via="to_compact", fmt="any".
+* Added beyond the plan: complex magnitudes (the x10^n rewrite must use each number's own
+  exponent), compounds holding two canonical units with the same symbol (fm), Measurement
+  (unit suffix only; the magnitude text belongs to `uncertainties`/C19), repr() forms, bare
+  UnitsContainer formatting, prefixed units (symbol = prefix symbol + unit symbol), exponents of
+  a numeric type foreign to the registry (`unit ** Fraction(1, 2)` in a float registry).
+* Quantity round trip is demanded of str(q) only (whatever default_format is configured) and only
+  when the effective magnitude spec is empty (a '.3f' default rounds by request).
+
+Classifier fields (what known findings can match on): mechanism in {raised, structure,
+siunitx-prefix-split, magnitude-text, roundtrip-unit, roundtrip-quantity, mutated,
+compact-changes-value}; fmt (layout family, 'plain' / 'any' where the family is irrelevant),
+names (long | ~ | -), nit (float | decimal | fraction), clause (never-raises | structure |
+magnitude | roundtrip | unchanged), plus err/exp_type/via (raised), reason/exp_type (structure),
+mag_kind (magnitude-text), cause/exp_type/mag_form (roundtrip-*).
 """
 import math
 import random
@@ -629,6 +645,7 @@ class Monitor:
                 rec.count("compact_value_not_comparable")
         items = items_of(target._units)
         m = target.magnitude
+        mk = self.mag_kind(m)           # to_compact may change the type (int -> float, real -> complex)
         status, payload = self._read_quantity(text, fam, mspec, short, m, items, mk, dict(ctx, spec=spec))
         if status == "bad":
             mech, wit, fields = payload
